@@ -76,18 +76,6 @@ vpv_cell!(#[kani::stub(eval_filter_expr, stub_eval_filter_expr)] #[kani::stub(co
 vpv_cell!(#[kani::stub(eval_filter_expr, stub_eval_filter_expr)] #[kani::stub(collect_emitted_event, stub_collect_emitted_event)] #[kani::stub(call_user_function, stub_call_user_function)] c11_un_not_b, "C11/eval_expr_with_functions/Unary/Not/Bool/no-panic", (a0: bool), { run_expr(Expr::Unary { op: UnaryOp::Not, expr: Box::new(Expr::Bool(a0)) }) });
 vpv_cell!(#[kani::stub(eval_filter_expr, stub_eval_filter_expr)] #[kani::stub(collect_emitted_event, stub_collect_emitted_event)] #[kani::stub(call_user_function, stub_call_user_function)] c11_un_bitnot_i, "C11/eval_expr_with_functions/Unary/BitNot/Int/no-panic", (a0: i64), { run_expr(Expr::Unary { op: UnaryOp::BitNot, expr: Box::new(Expr::Int(a0)) }) });
 vpv_cell!(#[kani::stub(eval_filter_expr, stub_eval_filter_expr)] #[kani::stub(collect_emitted_event, stub_collect_emitted_event)] #[kani::stub(call_user_function, stub_call_user_function)] c11_un_not_i, "C11/eval_expr_with_functions/Unary/Not/Int/no-panic", (a0: i64), { run_expr(Expr::Unary { op: UnaryOp::Not, expr: Box::new(Expr::Int(a0)) }) });
-vpv_cell!(#[kani::stub(eval_filter_expr, stub_eval_filter_expr)] #[kani::stub(collect_emitted_event, stub_collect_emitted_event)] #[kani::stub(call_user_function, stub_call_user_function)] #[kani::unwind(4)] c11_index_array, "C11/eval_expr_with_functions/Index/array/no-panic", (x: i64, y: i64, i: i64), {
-    run_expr(Expr::Index { expr: Box::new(Expr::Array(vec![Expr::Int(x), Expr::Int(y)])), index: Box::new(Expr::Int(i)) }) });
-vpv_cell!(#[kani::stub(eval_filter_expr, stub_eval_filter_expr)] #[kani::stub(collect_emitted_event, stub_collect_emitted_event)] #[kani::stub(call_user_function, stub_call_user_function)] #[kani::unwind(6)] c11_index_str, "C11/eval_expr_with_functions/Index/str/no-panic", (i: i64), {
-    run_expr(Expr::Index { expr: Box::new(Expr::Str(String::from("ab"))), index: Box::new(Expr::Int(i)) }) });
-vpv_cell!(#[kani::stub(eval_filter_expr, stub_eval_filter_expr)] #[kani::stub(collect_emitted_event, stub_collect_emitted_event)] #[kani::stub(call_user_function, stub_call_user_function)] #[kani::unwind(4)] c11_slice_array, "C11/eval_expr_with_functions/Slice/array/no-panic", (x: i64, s: i64, e: i64), {
-    run_expr(Expr::Slice { expr: Box::new(Expr::Array(vec![Expr::Int(x), Expr::Int(x)])), start: Some(Box::new(Expr::Int(s))), end: Some(Box::new(Expr::Int(e))) }) });
-vpv_cell!(#[kani::stub(eval_filter_expr, stub_eval_filter_expr)] #[kani::stub(collect_emitted_event, stub_collect_emitted_event)] #[kani::stub(call_user_function, stub_call_user_function)] #[kani::unwind(4)] c11_slice_array_open, "C11/eval_expr_with_functions/Slice/array-open-end/no-panic", (x: i64, s: i64), {
-    run_expr(Expr::Slice { expr: Box::new(Expr::Array(vec![Expr::Int(x), Expr::Int(x)])), start: Some(Box::new(Expr::Int(s))), end: None }) });
-vpv_cell!(#[kani::stub(eval_filter_expr, stub_eval_filter_expr)] #[kani::stub(collect_emitted_event, stub_collect_emitted_event)] #[kani::stub(call_user_function, stub_call_user_function)] #[kani::unwind(6)] c11_slice_str, "C11/eval_expr_with_functions/Slice/str/no-panic", (s: i64, e: i64), {
-    run_expr(Expr::Slice { expr: Box::new(Expr::Str(String::from("ab"))), start: Some(Box::new(Expr::Int(s))), end: Some(Box::new(Expr::Int(e))) }) });
-vpv_cell!(#[kani::stub(eval_filter_expr, stub_eval_filter_expr)] #[kani::stub(collect_emitted_event, stub_collect_emitted_event)] #[kani::stub(call_user_function, stub_call_user_function)] c11_if_coalesce, "C11/eval_expr_with_functions/If+Coalesce/no-panic", (c: bool, x: i64, y: f64), {
-    run_expr(Expr::If { cond: Box::new(Expr::Bool(c)), then_branch: Box::new(Expr::Coalesce { expr: Box::new(Expr::Null), default: Box::new(Expr::Int(x)) }), else_branch: Box::new(Expr::Float(y)) }) });
 vpv_cell!(c11_fn_abs, "C11/eval_builtin_function/abs/no-panic", (k: u8, i: i64, f: f64), { run_builtin("abs", vec![val(k, i, f)]) });
 vpv_cell!(c11_fn_sqrt, "C11/eval_builtin_function/sqrt/no-panic", (k: u8, i: i64, f: f64), { run_builtin("sqrt", vec![val(k, i, f)]) });
 vpv_cell!(c11_fn_floor, "C11/eval_builtin_function/floor/no-panic", (k: u8, i: i64, f: f64), { run_builtin("floor", vec![val(k, i, f)]) });
@@ -98,19 +86,12 @@ vpv_cell!(c11_fn_log10, "C11/eval_builtin_function/log10/no-panic", (k: u8, i: i
 vpv_cell!(c11_fn_exp, "C11/eval_builtin_function/exp/no-panic", (k: u8, i: i64, f: f64), { run_builtin("exp", vec![val(k, i, f)]) });
 vpv_cell!(c11_fn_sin, "C11/eval_builtin_function/sin/no-panic", (k: u8, i: i64, f: f64), { run_builtin("sin", vec![val(k, i, f)]) });
 vpv_cell!(c11_fn_cos, "C11/eval_builtin_function/cos/no-panic", (k: u8, i: i64, f: f64), { run_builtin("cos", vec![val(k, i, f)]) });
-vpv_cell!(c11_fn_to_int, "C11/eval_builtin_function/to_int/no-panic", (k: u8, i: i64, f: f64), { run_builtin("to_int", vec![val_nostr(k, i, f)]) });
-vpv_cell!(c11_fn_to_float, "C11/eval_builtin_function/to_float/no-panic", (k: u8, i: i64, f: f64), { run_builtin("to_float", vec![val_nostr(k, i, f)]) });
 vpv_cell!(c11_fn_is_null, "C11/eval_builtin_function/is_null/no-panic", (k: u8, i: i64, f: f64), { run_builtin("is_null", vec![val(k, i, f)]) });
 vpv_cell!(c11_fn_is_int, "C11/eval_builtin_function/is_int/no-panic", (k: u8, i: i64, f: f64), { run_builtin("is_int", vec![val(k, i, f)]) });
 vpv_cell!(c11_fn_type_of, "C11/eval_builtin_function/type_of/no-panic", (k: u8, i: i64, f: f64), { run_builtin("type_of", vec![val(k, i, f)]) });
 vpv_cell!(c11_fn_pow, "C11/eval_builtin_function/pow/no-panic", (k1: u8, i1: i64, f1: f64, k2: u8, i2: i64, f2: f64), { run_builtin("pow", vec![val(k1, i1, f1), val(k2, i2, f2)]) });
 vpv_cell!(c11_fn_min, "C11/eval_builtin_function/min/no-panic", (k1: u8, i1: i64, f1: f64, k2: u8, i2: i64, f2: f64), { run_builtin("min", vec![val(k1, i1, f1), val(k2, i2, f2)]) });
 vpv_cell!(c11_fn_max, "C11/eval_builtin_function/max/no-panic", (k1: u8, i1: i64, f1: f64, k2: u8, i2: i64, f2: f64), { run_builtin("max", vec![val(k1, i1, f1), val(k2, i2, f2)]) });
-vpv_cell!(#[kani::unwind(4)] c11_fn_get_array, "C11/eval_builtin_function/get(array)/no-panic", (x: i64, i: i64), { run_builtin("get", vec![Value::array(vec![Value::Int(x), Value::Int(x)]), Value::Int(i)]) });
-vpv_cell!(#[kani::unwind(4)] c11_fn_set_array, "C11/eval_builtin_function/set(array)/no-panic", (x: i64, i: i64), { run_builtin("set", vec![Value::array(vec![Value::Int(x), Value::Int(x)]), Value::Int(i), Value::Int(x)]) });
-vpv_cell!(#[kani::unwind(16)] c11_fn_substring, "C11/eval_builtin_function/substring/no-panic", (s: i64, e: i64), { run_builtin("substring", vec![Value::Str("ab".into()), Value::Int(s), Value::Int(e)]) });
-vpv_cell!(#[kani::unwind(16)] c11_fn_substring_utf8, "C11/eval_builtin_function/substring(non-ASCII, 3 and 2 args)/no-panic", (s: i64, e: i64, three: bool), {
-    run_builtin("substring", if three { vec![Value::Str("a\u{e9}".into()), Value::Int(s), Value::Int(e)] } else { vec![Value::Str("a\u{e9}".into()), Value::Int(s)] }) });
 vpv_cell!(#[kani::stub(eval_filter_expr, stub_eval_filter_expr)] #[kani::stub(collect_emitted_event, stub_collect_emitted_event)] #[kani::stub(call_user_function, stub_call_user_function)] c11_bin_eq_scalars, "C11/eval_expr_with_functions/Binary/Eq/Int-Int, Float-Float, Bool-Bool, Int-Float/no-panic", (a: i64, b: i64, x: f64, y: f64, p: bool, q: bool), {
     run_expr(Expr::Binary { op: BinOp::Eq, left: Box::new(Expr::Int(a)), right: Box::new(Expr::Int(b)) })
     && run_expr(Expr::Binary { op: BinOp::Eq, left: Box::new(Expr::Float(x)), right: Box::new(Expr::Float(y)) })
@@ -201,4 +182,4 @@ vpv_cell!(#[kani::stub(eval_filter_expr, stub_eval_filter_expr)] #[kani::stub(co
     && run_expr(Expr::Binary { op: BinOp::Shr, left: Box::new(Expr::Float(x)), right: Box::new(Expr::Float(y)) })
     && run_expr(Expr::Binary { op: BinOp::Shr, left: Box::new(Expr::Bool(p)), right: Box::new(Expr::Bool(q)) })
     && run_expr(Expr::Binary { op: BinOp::Shr, left: Box::new(Expr::Int(a)), right: Box::new(Expr::Float(y)) }) });
-vpv_replay_table!(c11_bin_eq_scalars, c11_bin_noteq_scalars, c11_bin_lt_scalars, c11_bin_le_scalars, c11_bin_gt_scalars, c11_bin_ge_scalars, c11_bin_in_scalars, c11_bin_notin_scalars, c11_bin_is_scalars, c11_bin_and_scalars, c11_bin_or_scalars, c11_bin_xor_scalars, c11_bin_followedby_scalars, c11_bin_bitand_scalars, c11_bin_bitor_scalars, c11_bin_bitxor_scalars, c11_bin_shl_scalars, c11_bin_shr_scalars, c11_bin_add_ii, c11_bin_add_if, c11_bin_add_fi, c11_bin_add_ff, c11_bin_sub_ii, c11_bin_sub_if, c11_bin_sub_fi, c11_bin_sub_ff, c11_bin_mul_ii, c11_bin_mul_if, c11_bin_mul_fi, c11_bin_mul_ff, c11_bin_div_ii, c11_bin_div_if, c11_bin_div_fi, c11_bin_div_ff, c11_bin_mod_ii, c11_bin_mod_if, c11_bin_mod_fi, c11_bin_mod_ff, c11_bin_pow_ii, c11_bin_pow_if, c11_bin_pow_fi, c11_bin_pow_ff, c11_bin_add_ss, c11_un_neg_i, c11_un_neg_f, c11_un_not_b, c11_un_bitnot_i, c11_un_not_i, c11_index_array, c11_index_str, c11_slice_array, c11_slice_array_open, c11_slice_str, c11_if_coalesce, c11_fn_abs, c11_fn_sqrt, c11_fn_floor, c11_fn_ceil, c11_fn_round, c11_fn_log, c11_fn_log10, c11_fn_exp, c11_fn_sin, c11_fn_cos, c11_fn_to_int, c11_fn_to_float, c11_fn_is_null, c11_fn_is_int, c11_fn_type_of, c11_fn_pow, c11_fn_min, c11_fn_max, c11_fn_get_array, c11_fn_set_array, c11_fn_substring, c11_fn_substring_utf8);
+vpv_replay_table!(c11_bin_eq_scalars, c11_bin_noteq_scalars, c11_bin_lt_scalars, c11_bin_le_scalars, c11_bin_gt_scalars, c11_bin_ge_scalars, c11_bin_in_scalars, c11_bin_notin_scalars, c11_bin_is_scalars, c11_bin_and_scalars, c11_bin_or_scalars, c11_bin_xor_scalars, c11_bin_followedby_scalars, c11_bin_bitand_scalars, c11_bin_bitor_scalars, c11_bin_bitxor_scalars, c11_bin_shl_scalars, c11_bin_shr_scalars, c11_bin_add_ii, c11_bin_add_if, c11_bin_add_fi, c11_bin_add_ff, c11_bin_sub_ii, c11_bin_sub_if, c11_bin_sub_fi, c11_bin_sub_ff, c11_bin_mul_ii, c11_bin_mul_if, c11_bin_mul_fi, c11_bin_mul_ff, c11_bin_div_ii, c11_bin_div_if, c11_bin_div_fi, c11_bin_div_ff, c11_bin_mod_ii, c11_bin_mod_if, c11_bin_mod_fi, c11_bin_mod_ff, c11_bin_pow_ii, c11_bin_pow_if, c11_bin_pow_fi, c11_bin_pow_ff, c11_bin_add_ss, c11_un_neg_i, c11_un_neg_f, c11_un_not_b, c11_un_bitnot_i, c11_un_not_i, c11_fn_abs, c11_fn_sqrt, c11_fn_floor, c11_fn_ceil, c11_fn_round, c11_fn_log, c11_fn_log10, c11_fn_exp, c11_fn_sin, c11_fn_cos, c11_fn_is_null, c11_fn_is_int, c11_fn_type_of, c11_fn_pow, c11_fn_min, c11_fn_max);
